@@ -86,11 +86,8 @@ fn drive_shared(mut it: Iter<'_, Tracked>, sel: &[Obs], script: &[Step]) -> R<()
                 }
             }
             Step::Dbg => {
-                let want = format!("{:?}", sel[lo..hi].iter().map(|o| o.val).collect::<Vec<_>>());
-                let got = format!("{:?}", it);
-                if got != want {
-                    return Err(format!("Debug of the iterator is {got}, expected {want}"));
-                }
+                let rem: Vec<u32> = sel[lo..hi].iter().map(|o| o.id).collect();
+                debug_touches_only("the iterator", &rem, || format!("{:?}", it))?;
             }
             Step::Count => {
                 let c = it.clone().count();
@@ -193,13 +190,8 @@ fn drive_mut(mut it: IterMut<'_, Tracked>, sel: &[Obs], script: &[Step], mut new
                 }
             }
             Step::Dbg => {
-                let want = format!("{:?}", sel[lo..hi].iter().enumerate().map(|(i, o)| {
-                    writes.iter().rev().find(|w| w.0 == lo + i).map(|w| w.1).unwrap_or(o.val)
-                }).collect::<Vec<_>>());
-                let got = format!("{:?}", it);
-                if got != want {
-                    return Err(format!("Debug of the mutable iterator is {got}, expected {want}"));
-                }
+                let rem: Vec<u32> = sel[lo..hi].iter().map(|o| o.id).collect();
+                debug_touches_only("the mutable iterator", &rem, || format!("{:?}", it))?;
             }
             Step::Count => {
                 let c = it.count();
@@ -429,11 +421,8 @@ impl St {
                             }
                         }
                         Step::Dbg => {
-                            let want = format!("{:?}", before[lo..hi].iter().map(|m| m.1).collect::<Vec<_>>());
-                            let g = it.debug_string();
-                            if g != want {
-                                return Err(format!("Debug of the owning iterator is {g}, expected {want}"));
-                            }
+                            let rem: Vec<u32> = before[lo..hi].iter().map(|m| m.0).collect();
+                            debug_touches_only("the owning iterator", &rem, || it.debug_string())?;
                         }
                         Step::Count | Step::Fold | Step::Last | Step::RevCollect => {
                             let v = it.collect_vec();
